@@ -22,11 +22,29 @@ RangeMeaning(lang, lo, hi) ==
          [] lang = "idl" -> <<-1>>                                          \* error: illegal subscript range
          [] OTHER -> IF lo = hi + 1 THEN <<>> ELSE <<-1>>
 
+(* Arithmetic on an index value that still has the integer class of the index  *)
+(* file (acc.arith = "class": Matlab fread '*uint8', Scilab mgeti keep the class *)
+(* and the accessor computes i(1,k)+1 in it): Matlab saturates, Scilab wraps.  *)
+(* Julia promotes to Int64 with the literal, IDL promotes byte to int, R reads  *)
+(* into 32-bit integers or doubles, Mathematica and Maple are exact.  Only the  *)
+(* 8- and 16-bit classes are modelled: the wider ones cannot reach their        *)
+(* maximum with the array sizes explored here.                                  *)
+IBits(t) == CASE t \in {"int8", "uint8"} -> 8 [] t \in {"int16", "uint16"} -> 16 [] OTHER -> 0
+ISigned(t) == t \in {"int8", "int16"}
+IMin(t) == IF ISigned(t) THEN -(2 ^ (IBits(t) - 1)) ELSE 0
+IMax(t) == IF ISigned(t) THEN 2 ^ (IBits(t) - 1) - 1 ELSE 2 ^ IBits(t) - 1
+ClassAdd(lang, t, x, d) ==
+  IF IBits(t) = 0 THEN x + d
+  ELSE CASE lang = "matlab" -> (IF x + d > IMax(t) THEN IMax(t) ELSE IF x + d < IMin(t) THEN IMin(t) ELSE x + d)
+         [] lang = "scilab" -> ((x + d - IMin(t)) % (2 ^ IBits(t))) + IMin(t)
+         [] OTHER -> x + d
+IdxAdd(rp, st, x, d) == IF rp.acc.arith = "class" THEN ClassAdd(rp.lang, st.inumtype, x, d) ELSE x + d
+
 (* 0-based rows of the values array that the accessor returns for index row <<s, e>> *)
-Select(rp, s, e) ==
+Select(rp, st, s, e) ==
   LET a == rp.acc
-      lo == s + a.startadd
-      hi == e + a.endadd
+      lo == IdxAdd(rp, st, s, a.startadd)
+      hi == IdxAdd(rp, st, e, a.endadd)
   IN IF a.guard = "empty_if_start_gt_end" /\ lo > hi THEN <<>>
      ELSE IF a.guard = "empty_if_start_ge_end" /\ lo >= hi THEN <<>>
      ELSE IF a.guard = "empty_if_equal" /\ s = e THEN <<>>
@@ -41,7 +59,7 @@ ValStored(st) == [numtype |-> st.numtype, bo |-> st.bo, shape |-> <<NRows(st)>> 
 IdxStored(st) == [numtype |-> st.inumtype, bo |-> st.ibo, shape |-> <<Len(st.rows), 2>>]
 
 AccessorOK(rp, st) ==
-  /\ \A k \in 1..Len(st.rows) : Select(rp, st.rows[k][1], st.rows[k][2]) = Want(st.rows[k][1], st.rows[k][2])
+  /\ \A k \in 1..Len(st.rows) : Select(rp, st, st.rows[k][1], st.rows[k][2]) = Want(st.rows[k][1], st.rows[k][2])
   (* k-th subarray (1-based) is looked up at language index k - 1 + origin along the axis that carries k *)
   /\ (IF rp.lang \in RowMajorLangs THEN rp.acc.kaxis = "first" ELSE rp.acc.kaxis = "second")
   /\ (IF rp.lang \in RowMajorLangs THEN rp.acc.nplace = 0 ELSE rp.acc.nplace = Len(st.atom))
